@@ -1,9 +1,16 @@
-#!/usr/bin/env python3
+#!/usr/bin/env python3-vt
 """Regenerates /verif/MANIFEST.json from tools/checks.json (one entry per claimed property)
 and validates it against the schema. Properties without an entry go to not_applicable."""
 import json, os, sys
 root = os.path.dirname(os.path.dirname(os.path.abspath(__file__)))
 spec = json.load(open(os.path.join(root, "tools", "checks.json")))
+# per-check fragments: harness/checks/cNN/manifest.json = {"engine":..,"technique":..,"text":..,"note":..,"category":..}
+import glob
+for f in sorted(glob.glob(os.path.join(root, "harness", "checks", "c*", "manifest.json"))):
+    pid = os.path.basename(os.path.dirname(f)).upper()
+    spec["checks"][pid] = json.load(open(f))
+for e in spec["engines"]:
+    e["serves_properties"] = sorted(p for p, c in spec["checks"].items() if c.get("engine") == e["name"])
 props = [json.loads(l)["id"] for l in open(os.path.join(root, "properties.jsonl")) if l.strip()]
 baseline = json.load(open("/root/.vp/BASELINE.json"))["cmd"]
 checks, na = [], []
